@@ -664,7 +664,23 @@ class FunctionEngine(CallsMixin, Engine):
         calls_mod = (spec or {}).get('modifies', ())
         if '!unknown' in mutated:
             raise Unsupported('loop mutates an unnamed container')
+        # names that the body only ever updates with an augmented assignment (`xs += ...` on a list / set / array keeps
+        # the object: every alias sees the change), never re-binds with a plain assignment
+        plain, aug = set(), set()
+        for node in ast.walk(ast.Module(body=list(body), type_ignores=[])):
+            if isinstance(node, ast.AugAssign) and isinstance(node.target, ast.Name):
+                aug.add(node.target.id)
+            elif isinstance(node, (ast.Assign, ast.AnnAssign, ast.For, ast.NamedExpr)):
+                tg = node.targets if isinstance(node, ast.Assign) else [node.target]
+                for t in tg:
+                    for sub in ast.walk(t):
+                        if isinstance(sub, ast.Name) and isinstance(sub.ctx, ast.Store):
+                            plain.add(sub.id)
+        inplace_only = {n for n in aug - plain - set(extra_names)
+                        if n in st.env and st.env[n].ty.kind in ('List', 'Set', 'Np1', 'Np2') and st.env[n].loc is not None}
         for n in sorted(names | set(extra_names)):
+            if n in inplace_only:
+                continue      # contents are havocked in place below (it is in `mutated`)
             if n in st.env:
                 v = st.env[n]
                 if v.ty is PY:
